@@ -15,4 +15,5 @@ Extraction "model.ml"
   QueryResponseSignature Question RR MalformedMessageData ResponseProcessingData QueryResponseExtended BlockPreamble
   BlockStatistics QueryResponse AddressEventCount MalformedMessage BlockTables Schema.Block
   val_eqb tadd add_qr add_aec add_mm blk_val blk_new item_count x_new write_block write_block_ext buffer_qr buffer_aec buffer_mm rotate destroy
-  add_block_parameters set_active reader_open reader_next read_file gen_qr gen_aec gen_mm.
+  add_block_parameters set_active reader_open reader_next read_file gen_qr gen_aec gen_mm
+  add_to blk_clear blk_of_rb tbs_of_tables bp_of_val xstep xrun.
